@@ -77,6 +77,14 @@ func H_C17_hiddenSearch() {
 		verifrt.Assert(!tomb[i], "no file of a tombstoned repository is returned")
 		verifrt.Assert(!(ftomb[i] && f.FileName == "a.go"), "no tombstoned path is returned")
 	}
+	for name := range res.RepoURLs {
+		i := verifRepoIndex(name)
+		verifrt.Assert(i >= 0 && !tomb[i], "RepoURLs does not name a tombstoned repository")
+	}
+	for name := range res.LineFragments {
+		i := verifRepoIndex(name)
+		verifrt.Assert(i >= 0 && !tomb[i], "LineFragments does not name a tombstoned repository")
+	}
 	verifrt.Reach("returned")
 }
 
